@@ -1,6 +1,12 @@
 package main
 
 import (
+	"encoding/pem"
+	"crypto/x509"
+	crand "crypto/rand"
+	"crypto/ed25519"
+	"crypto/elliptic"
+	"crypto/ecdsa"
 	"bytes"
 	"fmt"
 	"math/rand"
@@ -164,7 +170,7 @@ func init() {
 		return []string{"done"}
 	}
 	checkers["C14"] = checker{
-		rule: "for each decoder entry point (signature database/list/data, authentication descriptor, WIN_CERTIFICATE(_UEFI_GUID), supported-signature list, load option + device path + Format of every node, UTF-16 string, ReadNullString, Efistring, GUID text/bytes, PEM key/certificate, the typed accessors of efivarfs and the legacy efi/attributes functions on an in-memory file, testfs.WriteVar): valid captures, every truncation of small valid inputs, size fields set to 0/15/16/huge, device paths without end node, partition formats 0 and 3..255, expanded ACPI, empty and odd-length UTF-16, random bytes; one sandboxed worker call per (entry point, input) reporting return/panic/exit/timeout and the TotalAlloc delta; R_C14 (extracted check_safety) requires a return and TotalAlloc <= 64*|input| + 32 MiB; plus the Coq obligation over the termination sites regenerated by the go/types translator; non-trivial = non-empty input, distinct by (entry, input) hash",
+		rule: "for each decoder entry point (signature database/list/data, authentication descriptor, WIN_CERTIFICATE(_UEFI_GUID), supported-signature list, load option + device path + Format of every node, UTF-16 string, ReadNullString, Efistring, GUID text/bytes, PEM key/certificate, the typed accessors of efivarfs and the legacy efi/attributes functions on an in-memory file, testfs.WriteVar): valid captures (key files of every kind: RSA, ECDSA and Ed25519 in PKCS#8, PKCS#1, SEC1), every truncation of small valid inputs, size fields set to 0/15/16/huge, device paths without end node, partition formats 0 and 3..255, expanded ACPI, empty and odd-length UTF-16, random bytes; one sandboxed worker call per (entry point, input) reporting return/panic/exit/timeout and the TotalAlloc delta; R_C14 (extracted check_safety) requires a return and TotalAlloc <= 64*|input| + 32 MiB; plus the Coq obligation over the termination sites regenerated by the go/types translator; non-trivial = non-empty input, distinct by (entry, input) hash",
 		run:  runC14,
 	}
 }
@@ -219,6 +225,27 @@ func c14Seeds(rng *rand.Rand) map[string][][]byte {
 			add("pem", b)
 		}
 	}
+	// well-formed key files of every kind a PEM file may hold
+	if k, err := ecdsa.GenerateKey(elliptic.P256(), crand.Reader); err == nil {
+		if der, err := x509.MarshalPKCS8PrivateKey(k); err == nil {
+			add("pem", pem.EncodeToMemory(&pem.Block{Type: "PRIVATE KEY", Bytes: der}))
+		}
+		if der, err := x509.MarshalECPrivateKey(k); err == nil {
+			add("pem", pem.EncodeToMemory(&pem.Block{Type: "EC PRIVATE KEY", Bytes: der}))
+		}
+	}
+	if _, k, err := ed25519.GenerateKey(crand.Reader); err == nil {
+		if der, err := x509.MarshalPKCS8PrivateKey(k); err == nil {
+			add("pem", pem.EncodeToMemory(&pem.Block{Type: "PRIVATE KEY", Bytes: der}))
+		}
+	}
+	rk := rsaKey(2048, 0)
+	if der, err := x509.MarshalPKCS8PrivateKey(rk); err == nil {
+		add("pem", pem.EncodeToMemory(&pem.Block{Type: "PRIVATE KEY", Bytes: der}))
+	}
+	add("pem", pem.EncodeToMemory(&pem.Block{Type: "RSA PRIVATE KEY", Bytes: x509.MarshalPKCS1PrivateKey(rk)}))
+	add("pem", pem.EncodeToMemory(&pem.Block{Type: "CERTIFICATE", Bytes: simpleCert(rk, "pem cert", 1).Raw}))
+	add("pem", pem.EncodeToMemory(&pem.Block{Type: "PRIVATE KEY", Bytes: []byte{0x30, 0x00}}))
 	return seeds
 }
 
